@@ -281,22 +281,43 @@ End Selector.
 
 (** * Join  (join.go)
 
-    Inner incrementals are vars identified by integers; [vals] holds their current values
-    (a var's [Value()] is the value last written).  Engine discipline modelled (graph.go):
+    Inner incrementals are identified by integers.  They are either VARS ([vals] holds the
+    value last written, which is what a var's [Value()] returns) or COMPUTED nodes
+    ([cdefs]: [incr.Map]/[incr.Map2] nodes over two shared base vars, value
+    [a*base0 + b*base1 + c] as of their last recompute, also kept in [vals]).  A computed
+    node is either observed directly by someone else (always necessary) or [lazy]
+    (necessary only while the join links it).  Engine discipline modelled (graph.go):
     - [edges]: inner nodes that have the join node among their children.  [link] adds one
       through [ExpertGraph.AddChild]; [unlink] calls [RemoveParent], and [Graph.unlink]
       drops EVERY edge between the pair at once.
     - a write to an inner var queues it for recompute only if it is necessary, i.e. (in
       these histories) has the join among its children; at the next pass each queued var
       recomputes before the join and calls [ChildChanged] on the join iff the edge exists.
+    - a computed node is stale ([cstale]) when one of its base vars was written or when it
+      has just become necessary; a stale necessary node recomputes in the next pass and
+      calls [ChildChanged] on the join iff the edge exists at that moment.  A node that
+      already has the join among its children is lower than the join and recomputes BEFORE
+      it ([phaseA]).  Any other stale node is scheduled independently of the join (heights,
+      queue order, the engine's recompute-the-only-child-at-once shortcut): whether it runs
+      before or after the join's first run of the pass is an INPUT of the model, the [early]
+      list of a [Pass] event (the harness observes it on the real engine).  The late ones
+      ([phaseC]) are what the [SetStale] in [link] exists for: the join has linked the node
+      and read its OLD value, the node then recomputes and notifies the join over the new
+      edge, and the join, marked stale by [link], runs a second time and reads the new
+      value.  (The engine does not re-queue the join on behalf of a parent that changes
+      after the join's own recompute in the same pass: [shouldRecomputeChild].)
     - unobserving the join tears down all its edges and un-queues the inner vars
-      ([zeroNode]); observing it again links everything [Parents()] reports and recomputes
-      it ([recomputedAt = 0]), but re-delivers no notification.
-    - [link] marks the join stale ([SetStale]) so it runs a second time in the same pass.
+      ([zeroNode], which also zeroes [changedAt]); observing it again links everything
+      [Parents()] reports and recomputes it ([recomputedAt = 0]), but re-delivers no
+      notification.
 
-    [fixed] selects the repaired variant: observing the join again arms [refresh], and the
-    next Stabilize re-reads every linked key.  [fixed = false] is the code as it is. *)
+    [fixed] selects the variant of Stabilize: [true] is join.go with the relink repair (a
+    node whose [ChangedAt()] is 0 re-reads every linked inner incremental first), [false]
+    the code before it.  The harness probes which one /repo holds. *)
 Module Join.
+  (* a computed inner node: value = a*base0 + b*base1 + c *)
+  Record cdef := CDef { cd_lazy : bool; cd_a : Z; cd_b : Z; cd_c : Z }.
+
   Record t := Mk {
     last : zmap;         (* key -> inner id *)
     linked : zmap;       (* key -> inner id *)
@@ -304,41 +325,68 @@ Module Join.
     value : zmap;
     parents : list Z;    (* inner ids (the outer input is left out) *)
     pending : list Z;
-    refresh : bool;      (* repaired variant only *)
+    changedAt0 : bool;   (* ExpertNode(j).ChangedAt() == 0 *)
     restale : bool;      (* SetStale(j) was called by link during this recompute *)
     ingraph : bool;
     edges : gset Z;
-    dirty : gset Z;
-    vals : zmap;
-    outer : zmap
+    dirty : gset Z;      (* inner vars queued for recompute *)
+    vals : zmap;         (* Value() of every inner node *)
+    outer : zmap;
+    bvals : zmap;        (* the base vars 0 and 1 *)
+    cdefs : list (Z * cdef);
+    cstale : gset Z      (* computed nodes that recompute at the next pass in which they are necessary *)
   }.
-  Definition init (vals0 : zmap) : t := Mk ∅ ∅ ∅ ∅ [] [] false false false ∅ ∅ vals0 ∅.
+  Definition init (vals0 bvals0 : zmap) (cdefs0 : list (Z * cdef)) : t :=
+    Mk ∅ ∅ ∅ ∅ [] [] true false false ∅ ∅ vals0 ∅ bvals0 cdefs0 (list_to_set (map fst cdefs0)).
 
   Inductive ev :=
   | SetOuter (m : zmap)
   | SetInner (x v : Z)
+  | SetBase (i v : Z)
   | Unobserve
   | Observe
-  | Pass.
+  | Pass (early : list Z).   (* computed nodes the engine took before the join's first run *)
 
-  Definition with_value_pending (j : t) (value : zmap) (pending : list Z) (last : zmap) (refresh : bool) : t :=
-    Mk last (linked j) (byNode j) value (parents j) pending refresh (restale j)
-       (ingraph j) (edges j) (dirty j) (vals j) (outer j).
+  Definition with_value_pending (j : t) (value : zmap) (pending : list Z) (last : zmap) (changedAt0 : bool) : t :=
+    Mk last (linked j) (byNode j) value (parents j) pending changedAt0 (restale j)
+       (ingraph j) (edges j) (dirty j) (vals j) (outer j) (bvals j) (cdefs j) (cstale j).
+
+  (* the linking state *)
+  Definition with_links (j : t) (linked byNode : zmap) (parents : list Z) (restale : bool)
+      (edges dirty cstale : gset Z) : t :=
+    Mk (last j) linked byNode (value j) parents (pending j) (changedAt0 j) restale
+       (ingraph j) edges dirty (vals j) (outer j) (bvals j) (cdefs j) cstale.
+
+  (* what the engine and the outside world own *)
+  Definition with_env (j : t) (restale ingraph : bool) (edges dirty : gset Z) (vals outer bvals : zmap)
+      (cstale : gset Z) (changedAt0 : bool) : t :=
+    Mk (last j) (linked j) (byNode j) (value j) (parents j) (pending j) changedAt0 restale
+       ingraph edges dirty vals outer bvals (cdefs j) cstale.
+
+  Definition cdef_of (j : t) (x : Z) : option cdef :=
+    match list_find (fun p : Z * cdef => p.1 = x) (cdefs j) with Some (_, p) => Some p.2 | None => None end.
+  Definition is_lazy (j : t) (x : Z) : bool :=
+    match cdef_of j x with Some d => cd_lazy d | None => false end.
+  Definition cval (d : cdef) (bvals : zmap) : Z :=
+    cd_a d * val_of bvals 0 + cd_b d * val_of bvals 1 + cd_c d.
+  Definition depends (d : cdef) (i : Z) : bool :=
+    if i =? 0 then negb (cd_a d =? 0) else negb (cd_b d =? 0).
 
   (* joinIncr.ChildChanged *)
   Definition ChildChanged (j : t) (child : Z) : t :=
     match byNode j !! child with
-    | Some key => with_value_pending j (value j) (pending j ++ [key]) (last j) (refresh j)
+    | Some key => with_value_pending j (value j) (pending j ++ [key]) (last j) (changedAt0 j)
     | None => j
     end.
 
   (* joinIncr.link *)
   Definition link (j : t) (key inner : Z) : t :=
-    Mk (last j) (<[key := inner]> (linked j)) (<[inner := key]> (byNode j)) (value j)
-       (parents j ++ [inner]) (pending j) (refresh j)
-       true                               (* GraphForNode(j).SetStale(j) *)
-       (ingraph j) (edges j ∪ {[inner]})  (* ExpertGraph.AddChild(j, inner) *)
-       (dirty j) (vals j) (outer j).
+    with_links j (<[key := inner]> (linked j)) (<[inner := key]> (byNode j)) (parents j ++ [inner])
+      true                               (* GraphForNode(j).SetStale(j) *)
+      (edges j ∪ {[inner]})              (* ExpertGraph.AddChild(j, inner) *)
+      (dirty j)
+      (* a lazy computed node that nothing needed becomes necessary, hence stale *)
+      (if is_lazy j inner && negb (bool_decide (inner ∈ edges j)) then cstale j ∪ {[inner]} else cstale j).
 
   Fixpoint remove_first (x : Z) (l : list Z) : list Z :=
     match l with
@@ -351,11 +399,10 @@ Module Join.
     match linked j !! key with
     | None => j
     | Some inner =>
-      Mk (last j) (delete key (linked j)) (delete inner (byNode j)) (value j)
-         (remove_first inner (parents j)) (pending j) (refresh j) (restale j)
-         (ingraph j) (edges j ∖ {[inner]})   (* RemoveParent: every edge between the pair *)
-         (dirty j ∖ {[inner]})               (* the inner var became unnecessary *)
-         (vals j) (outer j)
+      with_links j (delete key (linked j)) (delete inner (byNode j)) (remove_first inner (parents j)) (restale j)
+        (edges j ∖ {[inner]})   (* RemoveParent: every edge between the pair *)
+        (dirty j ∖ {[inner]})   (* an inner var that became unnecessary leaves the queue *)
+        (cstale j)
     end.
 
   (* one iteration of the structural loop of joinIncr.Stabilize *)
@@ -367,7 +414,7 @@ Module Join.
     | Updated key _ new => (link (unlink j key) key new, <[key := val_of (vals j) new]> out)
     end.
 
-  (* repaired variant only: re-read every linked key *)
+  (* the relink repair: re-read every linked key *)
   Definition refresh_all (j : t) (out : zmap) : zmap :=
     fold_left (fun out kv => <[kv.1 := val_of (vals j) kv.2]> out) (entries (linked j)) out.
 
@@ -379,50 +426,78 @@ Module Join.
         | None => out   (* the key was removed in this same pass *)
         end) (pending j) out.
 
-  (* joinIncr.Stabilize; sameNode compares identities *)
+  (* joinIncr.Stabilize; sameNode compares identities.  The engine stamps changedAt after it. *)
   Definition Stabilize (fixed : bool) (j : t) : t :=
     let current := outer j in
-    let jo := fold_left struct_step (merge_diff (Some Z.eqb) (last j) current) (j, value j) in
+    let out := value j in
+    let out := if fixed && changedAt0 j then refresh_all j out else out in
+    let jo := fold_left struct_step (merge_diff (Some Z.eqb) (last j) current) (j, out) in
     let j := jo.1 in
-    let out := jo.2 in
-    let out := if fixed && refresh j then refresh_all j out else out in
-    let out := apply_pending j out in
+    let out := apply_pending j jo.2 in
     with_value_pending j out [] current false.
 
   Definition clear_restale (j : t) : t :=
-    Mk (last j) (linked j) (byNode j) (value j) (parents j) (pending j) (refresh j) false
-       (ingraph j) (edges j) (dirty j) (vals j) (outer j).
+    with_links j (linked j) (byNode j) (parents j) false (edges j) (dirty j) (cstale j).
 
-  Definition pass (fixed : bool) (j : t) : t :=
+  (* queued inner vars recompute first and notify the join over existing edges *)
+  Definition notify_vars (j : t) : t :=
+    let notified := filter (fun x => bool_decide (x ∈ edges j)) (sorted_keys (dirty j)) in
+    let j := fold_left ChildChanged notified j in
+    with_links j (linked j) (byNode j) (parents j) false (edges j) ∅ (cstale j).
+
+  (* a computed node recomputes: new value, no longer stale, the join is told if it is a child *)
+  Definition recompute_one (j : t) (x : Z) (d : cdef) : t :=
+    let j := with_env j (restale j) (ingraph j) (edges j) (dirty j) (<[x := cval d (bvals j)]> (vals j)) (outer j)
+                      (bvals j) (cstale j ∖ {[x]}) (changedAt0 j) in
+    if ingraph j && bool_decide (x ∈ edges j) then ChildChanged j x else j.
+
+  Definition necessary (j : t) (x : Z) (d : cdef) : bool :=
+    if cd_lazy d then ingraph j && bool_decide (x ∈ edges j) else true.
+
+  (* stale computed nodes that run before the join: those below it, and the [early] ones *)
+  Definition phaseA (early : list Z) (j : t) : t :=
+    fold_left (fun j (p : Z * cdef) =>
+        if bool_decide (p.1 ∈ cstale j) && necessary j p.1 p.2 &&
+           (ingraph j && bool_decide (p.1 ∈ edges j) || bool_decide (p.1 ∈ early))
+        then recompute_one j p.1 p.2 else j) (cdefs j) j.
+
+  (* the other stale necessary computed nodes, taken after the join's first run *)
+  Definition phaseC (j : t) : t :=
+    fold_left (fun j (p : Z * cdef) =>
+        if bool_decide (p.1 ∈ cstale j) && necessary j p.1 p.2
+        then recompute_one j p.1 p.2 else j) (cdefs j) j.
+
+  Definition first_run (fixed : bool) (early : list Z) (j : t) : t :=
+    phaseC (Stabilize fixed (phaseA early (notify_vars j))).
+
+  Definition pass (fixed : bool) (early : list Z) (j : t) : t :=
     if ingraph j then
-      (* queued inner vars recompute first and notify the join over existing edges *)
-      let notified := filter (fun x => bool_decide (x ∈ edges j)) (sorted_keys (dirty j)) in
-      let j := fold_left ChildChanged notified j in
-      let j := Mk (last j) (linked j) (byNode j) (value j) (parents j) (pending j) (refresh j) false
-                  (ingraph j) (edges j) ∅ (vals j) (outer j) in
-      let j := Stabilize fixed j in
+      let j := first_run fixed early j in
+      (* link marked the join stale: it runs again, after the nodes it has just linked *)
       if restale j then clear_restale (Stabilize fixed (clear_restale j)) else j
-    else j.
+    else phaseC j.
 
   Definition step (fixed : bool) (j : t) (e : ev) : t :=
     match e with
     | SetOuter m =>
-      Mk (last j) (linked j) (byNode j) (value j) (parents j) (pending j) (refresh j) (restale j)
-         (ingraph j) (edges j) (dirty j) (vals j) m
+      with_env j (restale j) (ingraph j) (edges j) (dirty j) (vals j) m (bvals j) (cstale j) (changedAt0 j)
     | SetInner x v =>
-      Mk (last j) (linked j) (byNode j) (value j) (parents j) (pending j) (refresh j) (restale j)
-         (ingraph j) (edges j)
-         (if ingraph j && bool_decide (x ∈ edges j) then dirty j ∪ {[x]} else dirty j)
-         (<[x := v]> (vals j)) (outer j)
+      with_env j (restale j) (ingraph j) (edges j)
+        (if ingraph j && bool_decide (x ∈ edges j) then dirty j ∪ {[x]} else dirty j)
+        (<[x := v]> (vals j)) (outer j) (bvals j) (cstale j) (changedAt0 j)
+    | SetBase i v =>
+      with_env j (restale j) (ingraph j) (edges j) (dirty j) (vals j) (outer j) (<[i := v]> (bvals j))
+        (cstale j ∪ list_to_set (map fst (filter (fun p : Z * cdef => depends p.2 i = true) (cdefs j))))
+        (changedAt0 j)
     | Unobserve =>
       if ingraph j then
-        Mk (last j) (linked j) (byNode j) (value j) (parents j) (pending j) (refresh j) (restale j)
-           false ∅ ∅ (vals j) (outer j)
+        with_env j (restale j) false ∅ ∅ (vals j) (outer j) (bvals j) (cstale j) true   (* zeroNode *)
       else j
     | Observe =>
       if ingraph j then j else
-        Mk (last j) (linked j) (byNode j) (value j) (parents j) (pending j) fixed (restale j)
-           true (list_to_set (parents j)) ∅ (vals j) (outer j)
-    | Pass => pass fixed j
+        with_env j (restale j) true (list_to_set (parents j)) ∅ (vals j) (outer j) (bvals j)
+          (cstale j ∪ list_to_set (filter (fun x => is_lazy j x = true) (parents j)))
+          (changedAt0 j)
+    | Pass early => pass fixed early j
     end.
 End Join.
